@@ -171,8 +171,10 @@ impl OpenEventIndex {
         file_data.extend_from_slice(&mphf_bytes); // serialized MPHF
         file_data.extend_from_slice(&records); // records array
 
+        file.set_len(0)?;
         file.write_all_at(&file_data, 0)?;
         file.flush()?;
+        crate::bucket::finish_index_file(file)?;
 
         Ok((mphf, 4 + 8 + 8 + mphf_bytes_len))
     }
